@@ -1004,6 +1004,65 @@ def oracle_C15(inp, meta=None):
     raise Unreachable("no C15 oracle for these inputs")
 
 
+def _mutate(x):
+    """mutate a list / dict in place the way a caller might after handing it to d42"""
+    if isinstance(x, list):
+        x.append(schema.none)
+        if len(x) > 1:
+            x.pop(0)
+        return True
+    if isinstance(x, dict):
+        x["__later__"] = schema.none
+        return True
+    return False
+
+
+def oracle_C07(inp, meta=None):
+    """a declaration call: the receiver is unchanged, and mutating a list/dict argument afterwards does not
+    change the schema that was built from it"""
+    meta = meta or {}
+    if "self" in inp and "method" in meta:
+        S_ = build(inp["self"])
+        args = [build(inp[n]) for n in meta["params"]]
+        if meta["params"] and meta["params"][-1] == "max" and args[-1] is Nil:
+            args = args[:-1]
+        before = repr(S_)
+        r = _call(S_, meta["method"], args)
+        if repr(S_) != before:
+            return True, f"receiver changed: {before} -> {S_!r}"
+        if r[0] != "ok":
+            return False, "rejected"
+        R = r[1]
+        text = repr(R)
+        changed = [a for a in args if _mutate(a)]
+        if changed and repr(R) != text:
+            return True, (f"{before}.{meta['method']}(<list/dict>) then mutating the argument changes the schema: "
+                          f"{text} -> {R!r}")
+        return False, "argument mutation does not reach the schema"
+    if "schema" in inp and "keys" in inp:
+        from d42.utils import make_required
+        d, ks = build(inp["schema"]), build(inp["keys"])
+        cands = [d] if isinstance(d, DictSchema) else []
+        cands += [schema.dict({"id": schema.int, optional("name"): schema.str}),
+                  schema.dict({optional("a"): schema.int, optional("b"): schema.int, ...: ...})]
+        for dd in cands:
+            for kk in ([ks] if dd is d else []) + [None, [k for k in dd.keys() if k is not ...][:1]]:
+                before = repr(dd)
+                kcopy = repr(kk)
+                try:
+                    make_required(dd, kk)
+                except DeclarationError:
+                    pass
+                except Exception as e:
+                    return True, f"make_required({before}, {kk!r}) raised {e!r}"
+                if repr(dd) != before:
+                    return True, f"make_required({before}, {kk!r}) changed its argument schema into {dd!r}"
+                if repr(kk) != kcopy:
+                    return True, f"make_required mutated its keys argument: {kcopy} -> {kk!r}"
+        return False, "make_required leaves its arguments alone"
+    raise Unreachable("no C07 oracle for these inputs")
+
+
 _custom_cache = {}
 
 
@@ -1068,7 +1127,8 @@ def oracle_C16(inp, meta=None):
     return False, "custom type is indistinguishable from its inner schema"
 
 
-ORACLES.update({"C14": oracle_C14, "C13": oracle_C13, "C15": oracle_C15, "C16": oracle_C16})
+ORACLES.update({"C14": oracle_C14, "C13": oracle_C13, "C15": oracle_C15, "C16": oracle_C16,
+                "C07": oracle_C07})
 ORACLES.update({"C10": oracle_C10, "C11": oracle_C11, "C01": oracle_C01, "C04": oracle_C04,
                 "C05": oracle_C05, "C12": oracle_C12})
 
